@@ -253,9 +253,12 @@ GenConfigShapes(long) == <<
 DetCfg == [BaseCfg EXCEPT !.types = <<"Root", "Other", "Leaf">>, !.exclude = <<"Root.Extra", "Other.Num">>,
              !.computed = <<"Root.Str", "Leaf.Str", "Root.Alpha">>, !.required = <<"Root.Zed", "Root.Sub.Str">>,
              !.sensitive = <<"Root.Sub", "Root.Dur", "Leaf.Num">>, !.durationcustom = "Duration", !.usfu = TRUE,
-             !.nameoverrides = <<KV("Root.Str", "ovr_a"), KV("Leaf.Num", "ovr_b"), KV("Root.Zed", "ovr_c")>>,
-             !.validators = <<[k |-> "Root.Str", v |-> <<"1", "2">>], [k |-> "Leaf.Str", v |-> <<"3">>], [k |-> "Root.Zed", v |-> <<"2">>]>>,
-             !.planmodifiers = <<[k |-> "Root.Alpha", v |-> <<"1">>], [k |-> "Leaf.Num", v |-> <<"2", "3">>], [k |-> "Root.Sub", v |-> <<"3">>]>>,
+             \* Root.Sub.Num / Root.Sub.Str are addressed twice with different values: by path and by Leaf.<field> (the path wins)
+             !.nameoverrides = <<KV("Root.Str", "ovr_a"), KV("Leaf.Num", "ovr_b"), KV("Root.Zed", "ovr_c"), KV("Root.Sub.Num", "ovr_d")>>,
+             !.validators = <<[k |-> "Root.Str", v |-> <<"1", "2">>], [k |-> "Leaf.Str", v |-> <<"3">>], [k |-> "Root.Zed", v |-> <<"2">>],
+                              [k |-> "Root.Sub.Str", v |-> <<"1">>]>>,
+             !.planmodifiers = <<[k |-> "Root.Alpha", v |-> <<"1">>], [k |-> "Leaf.Num", v |-> <<"2", "3">>], [k |-> "Root.Sub", v |-> <<"3">>],
+                                 [k |-> "Root.Sub.Num", v |-> <<"1">>]>>,
              !.injected = <<[k |-> "Root", v |-> <<Inj("id", "string", FALSE, TRUE, FALSE)>>], [k |-> "Root.Sub", v |-> <<Inj("rev", "int64", FALSE, TRUE, TRUE)>>],
                             [k |-> "Leaf", v |-> <<Inj("extra", "bool", FALSE, FALSE, TRUE)>>]>>,
              !.customtypes = <<KV("Root.Alpha", "CustB"), KV("Leaf.Num", "CustN")>>, !.suffixes = <<KV("CustB", "SufB"), KV("CustN", "SufN")>>]
@@ -343,7 +346,8 @@ EmbedOrderShapes ==
            !.gchecks = <<GCheck("schema", "C15", "C15.unsorted_schema")>>,
            !.pair = [key |-> "c15.e", role |-> role, clause |-> "C15.unsorted_behaviour", prop |-> "C15", exclkey |-> ""]]
   IN <<mk("0base", EmbFields, "base"), mk("1rev", Reverse(EmbFields), "variant"),
-       mk("2rot", <<EmbFields[2], EmbFields[3], EmbFields[1]>>, "variant")>>
+       mk("2rot", <<EmbFields[2], EmbFields[3], EmbFields[1]>>, "variant"),
+       mk("3last", <<EmbFields[3], EmbFields[1], EmbFields[2]>>, "variant")>>
 
 GenSortShapes(long) ==
   EmbedOrderShapes \o
@@ -356,7 +360,10 @@ GenSortShapes(long) ==
 
 SepSel == <<ScalarShapes[8], ScalarShapes[6], ScalarShapes[10], ScalarShapes[13], ListShapes[4], MapShapes[3],
             ObjShapes[1], ObjShapes[2], ObjShapes[4], ObjShapes[6], ObjShapes[7], OneofShapes[1], OneofShapes[2],
-            EmbedShapes[1], EmbedShapes[2], EmbedShapes[4], EmptyShapes[1], DeepShapes[1], PairShapes[2]>>
+            EmbedShapes[1], EmbedShapes[2], EmbedShapes[4], EmptyShapes[1], DeepShapes[1], PairShapes[2],
+            \* built-in element types below a slice / map modifier are never qualified
+            Shape("s.allbytes", Desc(<<Msg("Root", <<Fld("Raw", 1, "bytes"), Rep(Fld("Items", 2, "bytes")), MapOf(Fld("Tags", 3, "bytes")),
+                                                     Rep(Fld("Fa", 4, "bool")), MapOf(Fld("Fb", 5, "uint32"))>>, <<>>)>>), BaseCfg)>>
 
 SepTriple(sp) ==
   LET pr(role) == [key |-> "c13." \o sp.id, role |-> role, clause |-> "C13.same_behaviour", prop |-> "C13", exclkey |-> ""]
